@@ -310,6 +310,9 @@ def run_history(case):
             else:
                 for name in _os.listdir(tmp):
                     if name.startswith('session-') and not name.endswith('.lock'):
+                        if not _os.path.isfile(_os.path.join(tmp, name)):
+                            out[name[8:]] = ('b', 'notafile')
+                            continue
                         with open(_os.path.join(tmp, name), 'rb') as f:
                             c = _classify_blob(f.read())
                         out[name[8:]] = ('g', canon_dict(c[1]), c[2]) if c[0] == 'g' else c
@@ -779,6 +782,101 @@ def torn_cases(rng, nfiles):
     return out
 
 
+
+# ----------------------------------------------------------------------------------------------
+# table regenerated from the live module on every run: which exception classes of pickle.load does
+# FileSession._load turn into "no session"?  Measured by executing the real `_load` with a `pickle`
+# whose `load` raises the class (never by reading source text).
+# ----------------------------------------------------------------------------------------------
+OTHER_CLASSES = [ValueError, TypeError, AttributeError, ImportError, ModuleNotFoundError, IndexError, KeyError,
+                 UnicodeDecodeError, OverflowError, MemoryError, RuntimeError, AssertionError]
+
+
+def _load_catches(exc_factory):
+    from cherrypy.lib import sessions
+
+    class _P:
+        UnpicklingError = pickle.UnpicklingError
+        HIGHEST_PROTOCOL = pickle.HIGHEST_PROTOCOL
+
+        @staticmethod
+        def load(f):
+            raise exc_factory()
+    tmp = tempfile.mkdtemp(prefix='c14t-')
+    saved = sessions.pickle
+    sessions.pickle = _P
+    try:
+        path = _os.path.join(tmp, 'session-x')
+        with open(path, 'wb') as f:
+            f.write(b'x')
+        inst = sessions.FileSession.__new__(sessions.FileSession)
+        inst.locked = True
+        inst.debug = False
+        try:
+            return inst._load(path) is None
+        except Exception:
+            return False
+    finally:
+        sessions.pickle = saved
+        shutil.rmtree(tmp, ignore_errors=True)
+
+
+def tables(ctx):
+    from cherrypy.lib import sessions
+    eof = _load_catches(EOFError)
+    unp = _load_catches(lambda: pickle.UnpicklingError('x'))
+    oth = [c.__name__ for c in OTHER_CLASSES
+           if _load_catches((lambda c=c: c('utf-8', b'x', 0, 1, 'x')) if c is UnicodeDecodeError else c)]
+    missing_file = False
+    try:
+        inst = sessions.FileSession.__new__(sessions.FileSession)
+        inst.locked = True
+        inst.debug = False
+        missing_file = inst._load('/nonexistent/c14/session-x') is None
+    except Exception:
+        missing_file = False
+    drawn = []
+
+    class _O:
+        @staticmethod
+        def urandom(n):
+            drawn.append(n)
+            return b'\x00' * n
+    saved = sessions.os
+    sessions.os = _O
+    try:
+        gid = sessions.Session.generate_id(sessions.Session.__new__(sessions.Session))
+    finally:
+        sessions.os = saved
+    src = """/- GENERATED by harness/c14.py `tables` from the live cherrypy.lib.sessions - do not edit.
+   Each entry is measured by executing the real code (FileSession._load with a pickle whose load
+   raises the class; Session.generate_id with a recording urandom). -/
+import CpModel.SessionStore
+namespace CpModel.Gen.C14
+open CpModel.SessionStore
+
+/-- does `FileSession._load` map an exception of this class from `pickle.load` to "no session"?
+    `other` = every one of: %s -/
+def loadCatches : PExc -> Bool
+  | .eof => %s
+  | .unpickling => %s
+  | .other => %s
+
+/-- a missing file (IOError from `open`) is "no session" -/
+def missingFileIsNone : Bool := %s
+
+/-- bytes drawn from `os.urandom` per id, and the length of the id text -/
+def idBytes : Nat := %d
+def idTextLen : Nat := %d
+
+end CpModel.Gen.C14
+""" % (', '.join(c.__name__ for c in OTHER_CLASSES), str(eof).lower(), str(unp).lower(),
+       str(len(oth) == len(OTHER_CLASSES)).lower(), str(missing_file).lower(),
+       drawn[0] if drawn else 0, len(gid))
+    if oth and len(oth) != len(OTHER_CLASSES):
+        ctx.note('FileSession._load catches some but not all other classes: %s' % oth)
+    return {'CpModel/Gen/C14Tables.lean': src}
+
 # ----------------------------------------------------------------------------------------------
 def check_cases(ctx, cases, compare=True, shrink=True):
     results = [run_history(c) for c in cases]
@@ -801,7 +899,7 @@ def _report(ctx, cases, results, compare=True, shrink=True):
         for what, sig in fails:
             if ctx.match_known(sig) is None:
                 known_only = False
-        if fails and not known_only and shrink and not ctx.searching:
+        if fails and not known_only and shrink and not ctx.searching and len(ctx.oracle_failures) < 3:
             case2 = _shrink(case, {s for _, s in fails})
             if case2 is not None:
                 res2 = run_history(case2)
@@ -933,7 +1031,7 @@ def search(ctx, around=None):
     """Deeper oracle-only hunt (called when the proof or the correspondence broke)."""
     import random
     backend = around['backend'] if around else None
-    seeds = [(ctx.rng.randrange(1 << 40), 700) for _ in range(16)]
+    seeds = [(ctx.rng.randrange(1 << 40), 350) for _ in range(16)]
     for cases, results in common.parallel_map(_work, seeds):
         if backend:
             pass
@@ -941,7 +1039,7 @@ def search(ctx, around=None):
         if ctx.oracle_failures:
             break
     if not ctx.oracle_failures:
-        tc = torn_cases(random.Random(ctx.seed), 3)
+        tc = torn_cases(random.Random(ctx.seed), 2)
         check_cases(ctx, tc, compare=False, shrink=False)
 
 
